@@ -34,82 +34,59 @@ Proof.
     rewrite F. destruct (Qcompare_spec (q - inject_Z z) (1 # 2)) as [E|E|E]; try lra. reflexivity.
 Qed.
 
-(* the integer fact: away from a tie the device's value is strictly within half a unit of the exact one *)
-Lemma c_interp_near : forall n s t i, 0 < n -> tie n s t i = false ->
-  - n < 2 * ((t - s) * i) - 2 * (c_interp n s t i - s) * n < n.
-Proof.
-  intros n s t i Hn Ht. unfold tie in Ht. apply Z.eqb_neq in Ht. unfold c_interp.
-  set (num := (t - s) * i) in *.
-  replace (2 * (t - s) * i) with (2 * num) in Ht by (unfold num; ring).
-  assert (Hh : Z.quot n 2 = n / 2) by (apply Z.quot_div_nonneg; lia).
-  rewrite Hh. set (h := n / 2).
-  assert (Hh2 : n = 2 * h \/ n = 2 * h + 1).
-  { unfold h. pose proof (Z.div_mod n 2 ltac:(lia)). pose proof (Z.mod_pos_bound n 2 ltac:(lia)). lia. }
-  destruct (0 <=? num) eqn:E.
-  - apply Z.leb_le in E. rewrite Z.quot_div_nonneg by lia.
-    pose proof (Z.div_mod (num + h) n ltac:(lia)) as D. pose proof (Z.mod_pos_bound (num + h) n Hn) as B.
-    set (k := (num + h) / n) in *. set (r := (num + h) mod n) in *.
-    replace (s + k - s) with k by ring.
-    assert (T : ~ (r = 0 /\ n = 2 * h)).
-    { intros [R0 Ev]. apply Ht. symmetry. apply Z.mod_unique_pos with (q := k - 1); [lia|]. nia. }
-    nia.
-  - apply Z.leb_gt in E.
-    replace (num - h) with (- (h - num)) by ring. rewrite Z.quot_opp_l by lia. rewrite Z.quot_div_nonneg by lia.
-    pose proof (Z.div_mod (h - num) n ltac:(lia)) as D. pose proof (Z.mod_pos_bound (h - num) n Hn) as B.
-    set (k := (h - num) / n) in *. set (r := (h - num) mod n) in *.
-    replace (s + - k - s) with (- k) by ring.
-    assert (T : ~ (r = 0 /\ n = 2 * h)).
-    { intros [R0 Ev]. apply Ht. symmetry. apply Z.mod_unique_pos with (q := - k); [lia|]. nia. }
-    nia.
-Qed.
-
-Lemma near_from_scaled : forall a c x N : Q, (0 < N)%Q ->
-  ((c - (1 # 2) - a) * N < x * N)%Q -> (x * N < (c + (1 # 2) - a) * N)%Q ->
-  (c - (1 # 2) < a + x)%Q /\ (a + x < c + (1 # 2))%Q.
-Proof.
-  intros a c x N HN A1 A2. split; apply Qnot_le_lt; intro C.
-  - assert (C' : (x * N <= (c - (1 # 2) - a) * N)%Q) by (apply Qmult_le_compat_r; lra). exact (Qlt_not_le _ _ A1 C').
-  - assert (C' : ((c + (1 # 2) - a) * N <= x * N)%Q) by (apply Qmult_le_compat_r; lra). exact (Qlt_not_le _ _ A2 C').
-Qed.
-
-Lemma c_interp_eq_interp : forall n s t i, 0 < n -> tie n s t i = false ->
+(* the device's integer quotient/remainder formula IS the host's int(round(...)) - for every step, halves included
+   (round-half-even on both sides).  num = s*n + (t-s)*i is the exact value times n; it is >= 0 for channels in 0..255 *)
+Lemma c_interp_eq_interp : forall n s t i, 0 < n -> 0 <= s * n + (t - s) * i ->
   interp (inject_Z n) s t i = c_interp n s t i.
 Proof.
-  intros n s t i Hn Ht. pose proof (c_interp_near n s t i Hn Ht) as [L U].
-  set (z := c_interp n s t i) in *. unfold interp.
-  assert (Hq : (0 < inject_Z n)%Q) by (change 0%Q with (inject_Z 0); rewrite <- Zlt_Qlt; exact Hn).
-  set (NUM := inject_Z ((t - s) * i)). set (N := inject_Z n) in *.
-  assert (X : (NUM / N * N == NUM)%Q) by (field; lra).
-  set (x := (NUM / N)%Q) in *.
-  rewrite Zlt_Qlt in L, U.
-  assert (EL : (inject_Z (2 * ((t - s) * i) - 2 * (z - s) * n) == 2 * NUM - 2 * (inject_Z z - inject_Z s) * N)%Q).
-  { unfold NUM, N, Z.sub. rewrite !inject_Z_plus, !inject_Z_opp, !inject_Z_mult, !inject_Z_plus, !inject_Z_opp. reflexivity. }
-  rewrite EL in L, U. rewrite inject_Z_opp in L. fold N in L.
-  fold N in U. clear EL. clearbody x NUM N z.
-  assert (A1 : ((inject_Z z - (1 # 2) - inject_Z s) * N < x * N)%Q) by (rewrite X; nra).
-  assert (A2 : (x * N < (inject_Z z + (1 # 2) - inject_Z s) * N)%Q) by (rewrite X; nra).
-  destruct (near_from_scaled (inject_Z s) (inject_Z z) x N Hq A1 A2) as [B1 B2].
-  apply py_round_unique; assumption.
+  intros n s t i Hn Hnum. rewrite (c_interp_nonneg n s t i Hn Hnum). cbv zeta. unfold interp.
+  set (m := (t - s) * i) in *.
+  pose proof (Z.div_mod (s * n + m) n ltac:(lia)) as D. pose proof (Z.mod_pos_bound (s * n + m) n Hn) as B.
+  set (qz := (s * n + m) / n) in *. set (r := (s * n + m) mod n) in *.
+  assert (HN : (0 < inject_Z n)%Q) by (change 0%Q with (inject_Z 0); rewrite <- Zlt_Qlt; exact Hn).
+  set (Q0 := (inject_Z s + inject_Z m / inject_Z n)%Q).
+  assert (X : ((Q0 - inject_Z qz) * inject_Z n == inject_Z r)%Q).
+  { assert (Er : r = s * n + m + - (n * qz)) by lia.
+    rewrite Er, !inject_Z_plus, inject_Z_opp, !inject_Z_mult. unfold Q0. field. lra. }
+  assert (R0 : (0 <= inject_Z r)%Q) by (change 0%Q with (inject_Z 0); rewrite <- Zle_Qle; lia).
+  assert (R1 : (inject_Z r < inject_Z n)%Q) by (rewrite <- Zlt_Qlt; lia).
+  set (d := (Q0 - inject_Z qz)%Q) in *.
+  assert (D0 : (0 <= d)%Q).
+  { destruct (Qlt_le_dec d 0) as [C|C]; [exfalso|exact C]. clearbody d. nra. }
+  assert (D1 : (d < 1)%Q).
+  { destruct (Qlt_le_dec d 1) as [C|C]; [exact C|exfalso]. clearbody d. nra. }
+  assert (F : Qfloor Q0 = qz) by (apply floor_unique'; unfold d in D0, D1; lra).
+  unfold py_round. cbv zeta. rewrite F. fold d.
+  destruct (Qcompare_spec d (1 # 2)) as [E|E|E].
+  - assert (E2 : (inject_Z (2 * r) == inject_Z n)%Q).
+    { rewrite inject_Z_mult. change (inject_Z 2) with 2%Q. clearbody d. rewrite E in X. lra. }
+    assert (E3 : 2 * r = n) by (unfold Qeq in E2; cbn [Qnum Qden inject_Z] in E2; lia).
+    replace (n <? 2 * r) with false by (symmetry; apply Z.ltb_ge; lia).
+    replace (2 * r =? n) with true by (symmetry; apply Z.eqb_eq; exact E3).
+    cbn [orb andb]. destruct (Z.even qz); reflexivity.
+  - assert (E2 : (inject_Z (2 * r) < inject_Z n)%Q).
+    { rewrite inject_Z_mult. change (inject_Z 2) with 2%Q. clearbody d. nra. }
+    rewrite <- Zlt_Qlt in E2.
+    replace (n <? 2 * r) with false by (symmetry; apply Z.ltb_ge; lia).
+    replace (2 * r =? n) with false by (symmetry; apply Z.eqb_neq; lia).
+    reflexivity.
+  - assert (E2 : (inject_Z n < inject_Z (2 * r))%Q).
+    { rewrite inject_Z_mult. change (inject_Z 2) with 2%Q. clearbody d. nra. }
+    rewrite <- Zlt_Qlt in E2.
+    replace (n <? 2 * r) with true by (symmetry; apply Z.ltb_lt; lia).
+    reflexivity.
 Qed.
 
-Lemma tie_free_upto_spec : forall k i0 n s t, tie_free_upto k i0 n s t = true ->
-  forall i, i0 <= i < i0 + Z.of_nat k -> tie n s t i = false.
-Proof.
-  induction k as [|k IH]; intros i0 n s t H i Hi; [lia|].
-  cbn [tie_free_upto] in H. apply andb_true_iff in H as [H1 H2].
-  destruct (Z.eq_dec i i0) as [->|Hne].
-  - apply negb_true_iff. exact H1.
-  - apply (IH (i0 + 1) n s t H2). lia.
-Qed.
+Lemma c_interp_eq_interp_channels : forall n s t i, 0 < n -> 1 <= i <= n -> 0 <= s <= 255 -> 0 <= t <= 255 ->
+  interp (inject_Z n) s t i = c_interp n s t i.
+Proof. intros n s t i Hn Hi Hs Ht. apply c_interp_eq_interp; [exact Hn|nia]. Qed.
 
-Lemma c_interp3_eq_interp3 : forall n s t i, 0 < n -> tie_free3 n s t = true -> 1 <= i <= n ->
+Lemma c_interp3_eq_interp3 : forall n s t i, 0 < n -> ok3 s -> ok3 t -> 1 <= i <= n ->
   interp3 (inject_Z n) s t i = c_interp3 n s t i.
 Proof.
-  intros n [[s1 s2] s3] [[t1 t2] t3] i Hn H Hi. cbn [tie_free3] in H.
-  apply andb_true_iff in H as [H H3]. apply andb_true_iff in H as [H1 H2].
-  cbn [interp3 c_interp3].
-  rewrite !c_interp_eq_interp; try exact Hn; try reflexivity;
-    eapply tie_free_upto_spec; try eassumption; lia.
+  intros n [[s1 s2] s3] [[t1 t2] t3] i Hn (A1 & A2 & A3) (B1 & B2 & B3) Hi.
+  unfold chan_ok in *. cbn [interp3 c_interp3].
+  rewrite !c_interp_eq_interp; try exact Hn; try reflexivity; nia.
 Qed.
 
 (* ------------------------------------------------------------------ *)
@@ -181,22 +158,22 @@ Proof.
     cbn [st evs res fst snd pins painted app]. destruct k; [lia|reflexivity].
 Qed.
 
-Lemma c_interp3_end : forall n s t, 0 < n -> tie_free3 n s t = true -> c_interp3 n s t n = t.
+Lemma c_interp3_end : forall n s t, 0 < n -> ok3 s -> ok3 t -> c_interp3 n s t n = t.
 Proof.
-  intros n s t Hn H. rewrite <- (c_interp3_eq_interp3 n s t n Hn H ltac:(lia)). apply (interp3_end n Hn).
+  intros n s t Hn Hs H. rewrite <- (c_interp3_eq_interp3 n s t n Hn Hs H ltac:(lia)). apply (interp3_end n Hn).
 Qed.
 
-Lemma fade_tr : forall k i n p s t dl st delay, 0 < n -> tie_free3 n s t = true ->
+Lemma fade_tr : forall k i n p s t dl st delay, 0 < n -> ok3 s -> ok3 t ->
   1 <= i -> i + Z.of_nat k = n + 1 -> 0 <= dl -> rnd RHalfUp delay = dl ->
   nz (map dconv (snd (dfade_loop k i n p s t dl st))) =
   nz (flat_map (hrconv p RHalfUp) (rfade_evs k i n (inject_Z n) s t delay)) /\
   dr_col (fst (dfade_loop k i n p s t dl st)) = match k with O => dr_col st | S _ => t end.
 Proof.
-  induction k as [|k IH]; intros i n p s t dl st delay Hn Ht Hi Hsum Hdl Hd; [split; reflexivity|].
+  induction k as [|k IH]; intros i n p s t dl st delay Hn Hs Ht Hi Hsum Hdl Hd; [split; reflexivity|].
   cbn [dfade_loop rfade_evs]. unfold dr_write.
-  specialize (IH (i + 1) n p s t dl (mkDR (c_interp3 n s t i) (any_on (c_interp3 n s t i))) delay Hn Ht ltac:(lia) ltac:(lia) Hdl Hd).
+  specialize (IH (i + 1) n p s t dl (mkDR (c_interp3 n s t i) (any_on (c_interp3 n s t i))) delay Hn Hs Ht ltac:(lia) ltac:(lia) Hdl Hd).
   destruct (dfade_loop k (i + 1) n p s t dl _) as [st2 e3]. cbn [fst snd] in *. destruct IH as [I1 I2].
-  rewrite <- (c_interp3_eq_interp3 n s t i Hn Ht ltac:(lia)).
+  rewrite <- (c_interp3_eq_interp3 n s t i Hn Hs Ht ltac:(lia)).
   split.
   - cbn [flat_map]. rewrite flat_map_app. rewrite !map_app, !nz_app, I1.
     rewrite (aw3_lvl p _ RHalfUp). f_equal. f_equal.
@@ -254,7 +231,7 @@ Proof.
   - destruct (rgb_set_step p s st Off eq_refl Hc) as (E1 & E2 & E3). rewrite E1. auto.
   - (* fade *)
     repeat (apply andb_true_iff in Ho; destruct Ho as [Ho ?]).
-    rename H into Htie, H0 into Hil, H1 into Hpos, H2 into Hint, H3 into Hnn, H4 into Hb, H5 into Hg, Ho into Hr.
+    rename H into Hil, H0 into Hpos, H1 into Hint, H2 into Hnn, H3 into Hb, H4 into Hg, Ho into Hr.
     destruct (comp3_spec r g b Hr Hg Hb) as (V & Cl & Hok).
     destruct (nonneg_spec _ Hnn) as (Ed & _ & Hdq). destruct (is_pos_spec _ Hpos) as (En & _ & _).
     destruct (nonneg_zval d Hnn) as [Hd0 _].
@@ -280,7 +257,7 @@ Proof.
         assert (0 < inject_Z (zval n))%Q by (change 0%Q with (inject_Z 0); rewrite <- Zlt_Qlt; exact Hn).
         assert (0 <= qval d / inject_Z (zval n))%Q by (apply Qle_shift_div_l; lra). lra. }
       destruct (fade_tr (Z.to_nat (zval n)) 1 (zval n) p (color s) (zval r, zval g, zval b) (fade_delay (zval d) (zval n)) st
-                  (qval d / inject_Z (zval n))%Q Hn Htie ltac:(lia) ltac:(lia) Fp Fd) as [T1 T2].
+                  (qval d / inject_Z (zval n))%Q Hn Hcol Hok ltac:(lia) ltac:(lia) Fp Fd) as [T1 T2].
       cbn [fst snd RGBLed.evs RGBLed.st RGBLed.res].
       split; [exact T1|]. split; [|eexists; reflexivity].
       rewrite T2. destruct (Z.to_nat (zval n)) eqn:E0; [lia|reflexivity].
@@ -332,11 +309,18 @@ Proof.
   - split; [apply canon_nz; exact E1|exact E2].
 Qed.
 
+Lemma rgb_guard_stateless : forall s ops, rgb_guard s ops = forallb (rgb_in_range (0, 0, 0)) ops.
+Proof.
+  intros s ops. revert s. induction ops as [|o r IH]; intro s; [reflexivity|].
+  cbn [rgb_guard forallb]. rewrite IH. destruct o; reflexivity.
+Qed.
+
 (* non-vacuity: a history through fade (long path and shortcut) and blink inside the guard *)
 Definition rgb_demo_ops : list RGBLed.op :=
   [Fade (PI 200) (PI 10) (PI 0) (PI 90) (PI 7); Blink (PI 1) (PI 2) (PI 3) (PI 2) (PF (5 # 2)); Fade (PI 0) (PI 0) (PB true) (PI 0) (PI 5);
-   Blink (PI 255) (PI 0) (PI 0) (PB true) (PI 0); Off; Fade (PI 30) (PI 60) (PI 90) (PI 100) (PI 3)].
+   Blink (PI 255) (PI 0) (PI 0) (PB true) (PI 0); Off; Fade (PI 30) (PI 60) (PI 90) (PI 100) (PI 3);
+   Fade (PI 31) (PI 65) (PI 90) (PI 100) (PI 2) (* steps on a half: 30.5 -> 30, 62.5 -> 62 *)].
 
 Lemma rgb_demo_guard : rgb_guard (black (9, 10, 11)) rgb_demo_ops = true /\
-  length (fst (canon (drtr (9, 10, 11) drinit rgb_demo_ops))) = 45%nat.
+  length (fst (canon (drtr (9, 10, 11) drinit rgb_demo_ops))) = 48%nat.
 Proof. vm_compute. split; reflexivity. Qed.
